@@ -173,6 +173,7 @@ End Traffic.
 
 Definition r_initial (t : rpc) : bool :=
   match t with RLock => true | CAdd todo => forallb (fun d => (0 <=? d)%Z) todo | _ => false end.
+Definition r_finished (t : rpc) : bool := match t with RDone | CAdd [] => true | _ => false end.
 Definition zsum (l : list Z) : Z := fold_right Z.add 0%Z l.
 (* one complete report by a single caller, nobody else moving: 9 steps suffice (lock, 2 loads, get, update, store, unlock) *)
 Definition report_alone (fixed : bool) (s : rsh) : rsh := fst (run _ _ (rstep fixed) (s, [RLock]) (repeat 0 9)).
